@@ -446,32 +446,37 @@ def main(tier):
     if tier == 'thorough':
         walks += [(b'/r', [b'a', b'a/b', b'a/b/c', b'a/b/c/d.py']), (b'/a b', [b'c d/e f.py', b'.x', b'b/b/b'])]
     fs_results += pmap(fsroot.run_walkfs, walks)
-    gl = [(1, None, 1, None), (2, None, 0, None), (0, 2, 1, None), (0, 1, 2, None), (0, 0, 1, None), (2, None, 1, ('top', 1)), (1, None, 1, ('ign', 0)), (0, 2, 0, ('list', 1))]
+    gl = [(['top0/*.py'], None, ['ign0'], None), (['top0/*.py', 'top1/*.py'], None, [], None), ([], ['list0/**', 'list1/**'], ['ign0'], None),
+          ([], ['list0/**'], ['ign0', 'ign1'], None), ([], [], ['ign0'], None),
+          (['top0/*.py'], ['list0/**'], [], None),                  # globs on both sides of `list`
+          (['src', 'top0/*.py'], None, ['.ci/**'], None),           # a plain name that is a directory; a hidden ignored directory
+          (['top0/*.py', 'top1/*.py'], None, ['ign0'], ('top', 1)), (['top0/*.py'], None, ['ign0'], ('ign', 0)), ([], ['list0/**', 'list1/**'], [], ('list', 1))]
     fs_results += pmap(fsroot.run_globs, gl)
-    fs_seen = set()
     fs_violations = []
+    fs_by_role = {}
     for r in fs_results:
         for v in r.get('violations', []):
-            if v['role'] in fs_seen:
-                continue
-            fs_seen.add(v['role'])
-            if v['fsroot'] == 'globs':
-                fsroot.confirm_globs(binary, PROP, v, 0)
-            elif v['fsroot'] == 'root':
-                fsroot.confirm_root(binary, PROP, v, 0)
-            else:
-                fsroot.confirm_walk(binary, PROP, v, 0)
-            fs_violations.append(v)
+            fs_by_role.setdefault(v['role'], []).append(v)
         r2 = dict(r)
         r2['violations'] = []
         r2['samples'] = []
         agg.add(r2)
+    for role, cands in sorted(fs_by_role.items()):
+        # the same role can come from several shapes; the replay of some shapes cannot show it (e.g. no
+        # pattern that names a directory): keep the first candidate the real binary confirms
+        chosen = None
+        for v in cands[:8]:
+            {'globs': fsroot.confirm_globs, 'root': fsroot.confirm_root, 'walk': fsroot.confirm_walk}[v['fsroot']](binary, PROP, v, 0)
+            if v.get('confirmed'):
+                chosen = v
+                break
+        fs_violations.append(chosen or cands[0])
     # validation of these replays: on paths where the post-conditions hold, the real binary must agree
     # (a replay that "confirms" on a passing path is wrong, and nothing it confirms may be believed)
     if not fs_violations:
         fs_samples = [s for r in fs_results for s in r.get('samples', [])]
         rnd.shuffle(fs_samples)
-        picked = [s for s in fs_samples if s['fsroot'] == 'globs'][:4] + [s for s in fs_samples if s['fsroot'] == 'root'][:4]
+        picked = [s for s in fs_samples if s['fsroot'] == 'globs'] + [s for s in fs_samples if s['fsroot'] == 'root'][:4]
         picked.append(dict(fsroot='walk', role='sample', summary='sample'))
         for smp in picked:
             v = dict(smp)
@@ -532,7 +537,7 @@ def main(tier):
     return finish(
         agg, bounds,
         assumptions=['globset matching, ignore::Walk (hidden / git-ignored files) and the current directory are stubs: allow(path), ignore(path), walked(path) are arbitrary booleans per path',
-                     'Args::globs / ignored_globs run on enumerated argument shapes (0-2 top-level globs or `list` with 0-2 globs, 0-2 --ignore patterns, one refused pattern) with globset as a recording stub',
+                     'Args::globs / ignored_globs run on enumerated argument shapes (0-2 top-level globs, `list` with 0-2 globs, both together, 0-2 --ignore patterns, a plain directory name, a hidden directory, one refused pattern; Path::is_dir / exists answer arbitrarily) with globset as a recording stub',
                      'repository_root_path and FileSystemImpl::walk / read_to_string run on environment stubs: Path::is_dir is a Z3 boolean per <ancestor>/.git and /.hg, ignore::Walk yields entries whose kind (file, directory, error) Z3 chooses, fs::read_to_string records its argument; start directories of depth 0-3 (quick) / 0-4 (thorough)',
                      'unidiff::PatchSet::from_str is a stub returning one patched file with an arbitrary target path',
                      'targets without the b/ prefix whose own first component is `b` are outside the claim'],
